@@ -117,7 +117,8 @@ def d7(ctx, rep):
         n += 1
         refuted = und = proved_dom = 0
         first = None
-        for a, b in [(0.0, 0.0), (0.0, 0.001)] + list(zip(cuts, cuts[1:])):
+        near_one = [(0.999, 0.9999), (0.9999, 0.99999), (0.99999, 0.999999), (0.999999, 0.9999999)]
+        for a, b in [(0.0, 0.0), (0.0, 0.001)] + list(zip(cuts, cuts[1:])) + near_one:
             box = IV(a, b)
             alts, ik_ = evaluate_attrs(ctx, cls, 'compute_theta', {'tau': box})
             if not alts:
@@ -327,6 +328,11 @@ def d1(ctx, rep):
                     for arg in b.get(getattr(x, 'id', None), []):
                         passed.add(getattr(arg, 'id', None))
                 tau_verdict = passed == {u, v}
+    if tau_anchor is not None:
+        from ..idioms import row_subsets_reaching
+        for st, tn, bn, how in row_subsets_reaching(fn.node, {u, v, fn.params[0] if fn.params else None} - {None}, before=tau_anchor):
+            if tn in (u, v, fn.params[0] if fn.params else None):
+                rep.bad('D1.path', fn, st, f'{tn} is re-bound to {how} of {bn} before tau is estimated: tau is not the Kendall statistic of the sample', construct='tau from all rows')
     if tau_anchor is None or tau_verdict is None:
         rep.undecided('D1.path', fn, fn.node.name, 'where fit assigns self.tau (directly or in a private helper) was not recognised', construct='tau assignment')
     else:
